@@ -91,9 +91,9 @@ Proof.
     rewrite remove_cons, (flatten_cons b l), erase_app.
     destruct (is_codesep b) eqn:E.
     + destruct b; try discriminate. cbn [is_codesep] in E. unfold OP_CODESEPARATOR in E.
-      cbn [flat map tok_of_bit]. unfold erase_separators at 2. cbn [filter is_separator]. rewrite E. cbn [negb app].
+      cbn [flat map tok_of_bit]. unfold erase_separators at 1. cbn [filter is_separator]. rewrite E. cbn [negb app].
       apply Hl; exact Hpl'.
-    + rewrite flatten_cons, Hb, Hl by assumption. reflexivity.
+    + rewrite flatten_cons, Hb, Hl by (assumption || reflexivity). reflexivity.
 Qed.
 
 (* 3. the flat element view serialises to the script's own bytes (for script values of the parser's form) *)
@@ -116,13 +116,13 @@ Proof.
   - intros c p IHp Hpl. rewrite plain_bit_if in Hpl.
     apply andb_true_iff in Hpl as [Hpl _]. apply andb_true_iff in Hpl as [Hc Hp].
     rewrite flat_tokens_if, bit_bytes_if. cbn [toks_bytes tok_bytes app].
-    rewrite toks_bytes_app, IHp by exact Hp. cbn [toks_bytes tok_bytes app]. rewrite app_nil_r. reflexivity.
+    rewrite toks_bytes_app, IHp by exact Hp. cbn [toks_bytes tok_bytes app]. rewrite ?app_nil_r. reflexivity.
   - intros c p q IHp IHq Hpl. rewrite plain_bit_if in Hpl.
     apply andb_true_iff in Hpl as [Hpl Hq]. apply andb_true_iff in Hpl as [Hc Hp].
     rewrite flat_tokens_if, bit_bytes_if. cbn [toks_bytes tok_bytes app].
     rewrite toks_bytes_app, IHp by exact Hp.
-    change ((TOp OP_ELSE :: flatten q) ++ [TOp OP_ENDIF]) with ([TOp OP_ELSE] ++ flatten q ++ [TOp OP_ENDIF]).
-    rewrite !toks_bytes_app, IHq by exact Hq. cbn [toks_bytes tok_bytes app]. rewrite app_nil_r. reflexivity.
+    cbn [toks_bytes tok_bytes app].
+    rewrite toks_bytes_app, IHq by exact Hq. cbn [toks_bytes tok_bytes app]. rewrite ?app_nil_r. reflexivity.
   - reflexivity.
   - intros b l Hb Hl Hpl. cbn [plain_bits] in Hpl. apply andb_true_iff in Hpl as [Hpb Hpl'].
     rewrite flatten_cons, toks_bytes_app, Hb, Hl by assumption. reflexivity.
@@ -185,7 +185,8 @@ Proof.
               plain_bits bs = true /\ forallb leaf_ok r = true).
     { intros o Hpo Ho. destruct (nest f m ts') as [[[bs' t'] r']| |] eqn:H3; cbn [bind] in Ho; try discriminate.
       inv Ho. apply IH in H3; [|exact Hl']. destruct H3 as [Hb Hr]. cbn [plain_bits]. rewrite Hpo, Hb. split; [reflexivity|exact Hr]. }
-    destruct x as [c|d|c d|c p q|d]; try (apply Hplain; [exact Hx | exact H]); [|discriminate Hx].
+    destruct x as [c|d|c d|c p q|d];
+      [ | apply (Hplain (BPush d) Hx H) | apply (Hplain (BPushData c d) Hx H) | cbn [leaf_ok] in Hx; discriminate Hx | apply (Hplain (BCoinbase d) Hx H)].
     destruct (is_if c) eqn:Hif.
     + destruct (nest f Pass ts') as [[[p tp] r1]| |] eqn:H1; try discriminate.
       apply IH in H1; [|exact Hl']. destruct H1 as [P1 F1].
@@ -201,7 +202,7 @@ Proof.
         inv H. split; [|exact F3]. cbn [plain_bits]. rewrite plain_bit_if, Hif, P1, P3. reflexivity.
     + destruct m, (c =? OP_ELSE)%N, (c =? OP_ENDIF)%N;
         try (inv H; split; [reflexivity | exact Hl']);
-        try (apply Hplain; [reflexivity | exact H]).
+        try (apply (Hplain (BOp c) eq_refl H)).
 Qed.
 
 Lemma tokenize_leaf_ok : forall f bs ts, tokenize f bs = Ok ts -> forallb leaf_ok ts = true.
@@ -347,8 +348,6 @@ Section C10.
     assert (Hi : i < length (inputs t)) by (apply nth_error_Some; congruence).
     replace (Nat.leb (length (inputs t)) i) with false by (symmetry; apply Nat.leb_gt; lia).
     (* inputs after blanking and substitution *)
-    change (set_unlocking (set_unlocking inp []) script)
-      with ((fun a => set_unlocking (set_unlocking a []) script) inp).
     rewrite (set_nth_map (fun a => set_unlocking a []) (fun a => set_unlocking (set_unlocking a []) script)
                          (inputs t) i 0 inp Ei).
     cbn [Nat.add].
@@ -389,13 +388,12 @@ Section C10.
     destruct hs.
     - (* SINGLE *)
       destruct hn; [discriminate|]. cbn [orb andb].
-      rewrite nth_error_map.
       destruct (nth_error (outputs t) i) as [o|] eqn:Eo; cbn [option_map bind].
       + assert (i < length (outputs t)) by (apply nth_error_Some; congruence).
         replace (Nat.leb (length (outputs t)) i) with false by (symmetry; apply Nat.leb_gt; lia).
         rewrite Eacp. unfold mapi.
-        rewrite (single_outputs null_out (map view_out (outputs t)) i 0 (view_out o))
-          by (rewrite nth_error_map, Eo; reflexivity).
+        assert (Es := single_outputs null_out (map view_out (outputs t)) i 0 (view_out o)).
+        cbn [Nat.add] in Es. rewrite Es by (rewrite nth_error_map, Eo; reflexivity).
         rewrite map_app, map_repeat'. reflexivity.
       + apply nth_error_None in Eo.
         replace (Nat.leb (length (outputs t)) i) with true by (symmetry; apply Nat.leb_le; lia). reflexivity.
